@@ -699,18 +699,20 @@ class ODataParser(Parser):
         Returns:
             A list of all identifiers in the ``attr``
         """
-        if isinstance(attr.owner, ast.Identifier):
-            exploded = [attr.owner.name]
-        elif isinstance(attr.owner, ast.Attribute):
-            exploded = self._explode_attr(attr.owner)
-        else:
-            raise NotImplementedError()
-
-        if isinstance(attr.attr, str):
-            exploded.append(attr.attr)
-        elif isinstance(attr.attr, ast.Attribute):
-            exploded.extend(self._explode_attr(attr.attr))
-        else:
-            raise NotImplementedError
+        # Iterative on purpose: paths can be arbitrarily long and the owner chain
+        # is as deep as the path.
+        exploded: List[str] = []
+        todo: List[Any] = [attr]
+        while todo:
+            item = todo.pop()
+            if isinstance(item, str):
+                exploded.append(item)
+            elif isinstance(item, ast.Identifier):
+                exploded.append(item.name)
+            elif isinstance(item, ast.Attribute):
+                todo.append(item.attr)
+                todo.append(item.owner)
+            else:
+                raise NotImplementedError()
 
         return exploded
